@@ -68,7 +68,7 @@ def gen_case(rng, i):
         # the ordinary life of an invitation first: received, accepted, the group moves on
         G.ops.append("process 1 0 0 ok"); salts[0] = {0}
         if rng.random() < 0.85:
-            G.ops.append("accept 1 0")
+            G.ops.append("accept 1 0" + (" held" if rng.random() < 0.5 else ""))
             for _ in range(rng.randint(0, 3)):
                 G.commit(g0)
                 if rng.random() < 0.8:
@@ -90,9 +90,9 @@ def gen_case(rng, i):
             salts[w].add(salt)
             G.ops.append(f"process 1 {w} {salt} {variant}")
         elif x < 0.45:
-            G.ops.append(f"accept 1 {some_w()}")
+            G.ops.append(f"accept 1 {some_w()}" + (" held" if rng.random() < 0.5 else ""))
         elif x < 0.53:
-            G.ops.append(f"decline 1 {some_w()}")
+            G.ops.append(f"decline 1 {some_w()}" + (" held" if rng.random() < 0.5 else ""))
         elif x < 0.66:
             G.commit(gi)
             if rng.random() < 0.6:
